@@ -13,7 +13,7 @@ import (
 
 func init() {
 	Register(&Scenario{Prop: "C13", Name: "snapshot-roundtrip", Run: scenC13, SoftParks: true, Weight: 1,
-		Rule: "node T (+0-2 feeders) with one event-log or key-value database; log shape drawn per run: empty, chain, fork/multi-writer via partial replication, containing replicated entries, or with replication in progress (announcement delivered, block fetches withheld); payload sizes drawn from {0,1,100,4 KiB,40 KiB,48 KiB-64 KiB around the 16-bit boundary,128 KiB,300 KiB}; SaveSnapshot on T (in a third of the runs while a second, small database of the same instance is being saved too), then clean close, reopen on the same directory, LoadFromSnapshot on the fresh store object; oracle: SaveSnapshot returns an error, or the reloaded store (after re-queued fetches come to rest) has the same entry set, heads and visible state; neither call may panic; non-trivial = log has >=2 entries or >=1 replicated entry or a payload >=40 KiB or replication in progress"})
+		Rule: "node T (+0-2 feeders) with one event-log or key-value database; log shape drawn per run: empty, chain, fork/multi-writer via partial replication, containing replicated entries, or with replication in progress (announcement delivered, block fetches withheld); payload sizes drawn from {0,1,100,4 KiB,40 KiB,48 KiB-64 KiB around the 16-bit boundary,128 KiB,300 KiB}; SaveSnapshot on T (in a third of the runs while a second, small database of the same instance is being saved too), in a quarter of the runs one cache write of the save fails with a disk error; then clean close, reopen on the same directory, LoadFromSnapshot on the fresh store object; oracle: SaveSnapshot returns an error, or the reloaded store (after re-queued fetches come to rest) has the same entry set, heads and visible state; neither call may panic; non-trivial = log has >=2 entries or >=1 replicated entry or a payload >=40 KiB or replication in progress"})
 }
 
 var c13Sizes = []int{0, 1, 100, 4096, 40 * 1024, 48 * 1024, 49000, 49100, 49152, 50000, 64*1024 - 1, 64 * 1024, 64*1024 + 1, 128 * 1024, 300 * 1024}
@@ -154,6 +154,25 @@ func scenC13(k *K) {
 			}
 		}
 	}
+	// in a quarter of the runs one of the cache writes of the save fails (disk error): the save
+	// must then report an error, or the snapshot must reload all the same
+	if k.C.Chance(1, 4) {
+		nth := k.C.Range(1, 2)
+		nd := c.Peers[0].Node
+		seenPuts := 0
+		k.W.mu.Lock()
+		k.W.DiskFault = func(on *Node, kind, space, key string) error {
+			if on == nd && kind == "cache-put" {
+				if seenPuts++; seenPuts == nth {
+					return fmt.Errorf("sim: disk error on %s", key)
+				}
+			}
+			return nil
+		}
+		k.W.mu.Unlock()
+		k.cleanups = append(k.cleanups, func() { k.W.mu.Lock(); k.W.DiskFault = nil; k.W.mu.Unlock() })
+		k.W.Stat("save-under-disk-error")
+	}
 	mainSave := k.Go(0, "save-snapshot", func() (interface{}, error) {
 		ctx, cancel := OpCtx(2 * time.Minute)
 		defer cancel()
@@ -170,6 +189,9 @@ func scenC13(k *K) {
 	for j := 0; j < 100 && !(k.IsDone(mainSave) && (sideOp == nil || k.IsDone(sideOp))); j++ {
 		k.Step()
 	}
+	k.W.mu.Lock()
+	k.W.DiskFault = nil
+	k.W.mu.Unlock()
 	sop := mainSave
 	sideAddr := ""
 	if side != nil {
